@@ -423,16 +423,47 @@ def check_op(prog, rep, m, name):
         fn = 'min' if name.startswith('lowest') else 'max'
         ok = False
         got = None
+        why = ''
         for i, c in appends:
             env = straightline_env(body)
             e = inline(c.args[0], env)
             got = norm(e)
-            want1 = '%s.index(%s(%s)) + 1' % (comb, fn, comb)
-            alts = {want1, 'np.arg%s(%s) + 1' % (fn, comb), '1 + %s.index(%s(%s))' % (comb, fn, comb),
-                    'int(np.arg%s(%s)) + 1' % (fn, comb), 'np.arg%s(%s) + 1' % (fn, comb)}
-            ok = got in alts
+        # The per-cell code touches the layer values only through comparisons (min / max / index / < / >), so its result
+        # depends on their ordering alone: it is evaluated (consteval: a pure-Python subset, no library code) for every
+        # tuple over three distinct levels of length 1..3 - every weak ordering of up to three layers, ties included -
+        # and must give the 1-based position of the first extreme value each time.  However it is spelled.
+        if guard_pos is not None and len(appends) == 1 and isinstance(appends[0][1].func, ast.Attribute) and \
+                isinstance(appends[0][1].func.value, ast.Name):
+            from itertools import product
+            from ..consteval import CannotFold, Folder, _Continue
+            outname = appends[0][1].func.value.id
+            g = body[guard_pos]
+            stmts = list(g.orelse) + list(body[guard_pos + 1:])
+            pre = [s_ for s_ in body[:guard_pos] if isinstance(s_, ast.Assign)]
+            bad = None
+            try:
+                for n_ in (1, 2, 3):
+                    for tup in product((0, 1, 2), repeat=n_):
+                        fo = Folder(prog, f.module)
+                        env_ = {comb: tup, outname: []}
+                        try:
+                            fo.block(pre + stmts, env_)
+                        except _Continue:
+                            pass
+                        want = tup.index(min(tup) if fn == 'min' else max(tup)) + 1
+                        if env_[outname] != [want] or isinstance(env_[outname][0], bool):
+                            bad = (tup, env_[outname], want)
+                            break
+                    if bad:
+                        break
+                ok = bad is None
+                why = '; for the layer values %s the cell gets %s, expected %s' % bad if bad else ''
+            except CannotFold as ex:
+                ok, why = None, '; per-cell code not evaluable: %s' % ex
+        else:
+            ok, why = None, '; NaN guard / single append of the per-cell result not identified'
         rep.add('L4', f, name, 'appended value: %s' % got, loop.lineno, ok,
-                '%s must be the 1-based index of the first %simum: %s.index(%s(%s)) + 1' % (name, fn, comb, fn, comb))
+                '%s must be the 1-based index of the first %simum: %s.index(%s(%s)) + 1%s' % (name, fn, comb, fn, comb, why))
     if name == 'rank':
         env = straightline_env(body)
         sorted_ok = any(isinstance(s, ast.Expr) and isinstance(s.value, ast.Call) and short(s.value) == 'sort' and
